@@ -84,8 +84,11 @@ func newC13Env(w *core.W, kind, scenario string, seed uint64) *c13Env {
 			e.ln.ClosedErr = errors.New("netsim: listener closed") // a listener with a closed-sentinel of its own
 		}
 		e.srv.Listener = e.ln
+		// closing a connection may take a while (a lingering socket, a wrapper that flushes first)
+		e.ln.Prepare = func(sv *netsim.Stream) { sv.CloseDelay = time.Duration(seed%3) * 6 * time.Millisecond }
 	case "tls-sim":
 		e.ln = netsim.NewListener()
+		e.ln.Prepare = func(sv *netsim.Stream) { sv.CloseDelay = time.Duration(seed%3) * 6 * time.Millisecond }
 		sc, _ := c13TLS()
 		e.srv.Listener = tls.NewListener(e.ln, sc)
 	case "pc-sim":
@@ -254,6 +257,7 @@ type c13Shutdown struct {
 func (e *c13Env) shutdown(tag string, ctx context.Context) *c13Shutdown {
 	s := &c13Shutdown{done: make(chan error, 1)}
 	e.ctl.Note("shutdown.call", tag)
+	ln := e.ln // the listener of the run that is being shut down
 	go func() {
 		var err error
 		if ctx != nil {
@@ -266,6 +270,15 @@ func (e *c13Env) shutdown(tag string, ctx context.Context) *c13Shutdown {
 			// "once shutdown completes no connection of the server remains": the datagram socket has been
 			// released by the time a graceful Shutdown returns, not some time later
 			e.viol("packetconn-open-when-shutdown-returns", fmt.Sprintf("Shutdown returned nil while no Close of the PacketConn had completed (Close calls begun: %d)", e.pc.Closes()))
+		}
+		if err == nil && ln != nil && e.scenario != "hijack" {
+			// ... and so have the connections it accepted: closed, not about to be
+			for i, c := range ln.Accepted() {
+				if c.Closes() == 0 {
+					e.viol("connection-open-when-shutdown-returns", fmt.Sprintf("Shutdown returned nil while connection %d accepted by the server had not been closed yet", i))
+					break
+				}
+			}
 		}
 		s.done <- err
 	}()
